@@ -137,7 +137,7 @@ struct Runner {
   std::string regime() const {
     if (env.be == B_RH_EXACT && (M.nrhtiny || tr_rhtiny)) return "regime:C08/rhumb-exact/edge-with-nonzero-latitude-below-1e-290deg";
     if (env.be == B_RH_EXACT && env.f < 0 && (M.nrheq || tr_rheq)) return "regime:C08/rhumb-exact/prolate-ellipsoid-edge-near-equator-same-side";
-    if ((env.be == B_EXACT || env.be == B_DELEG) && env.f < -0.2 && (M.npreq || tr_preq)) return "regime:C08/geod-exact/strongly-prolate-ellipsoid-inverse-edge-within-1e-8deg-of-equator";
+    if ((env.be == B_EXACT || env.be == B_DELEG) && env.f < -0.2 && (M.npreq || tr_preq)) return "regime:C08/geod-exact/strongly-prolate-ellipsoid-near-equatorial-nearly-antipodal-inverse-edge";
     if ((env.be == B_EXACT || env.be == B_DELEG) && env.f > 0.5 && (M.npreq || tr_preq)) return "regime:C08/geod-exact/strongly-oblate-ellipsoid-inverse-edge-within-1e-8deg-of-equator";
     return ""; }
   void viol(const std::string& key, const J& d) {
